@@ -105,8 +105,8 @@ impl Family for C07Family {
 
     fn total(&self, tier: Tier) -> u64 {
         match tier {
-            Tier::Quick => 1_200,
-            Tier::Thorough => 120_000,
+            Tier::Quick => 6_000,
+            Tier::Thorough => 500_000,
         }
     }
 
